@@ -42,17 +42,17 @@ P_InvokeOK(vals, parent, s, sig, r) ==
   LET missing == { i \in 1..Len(sig) : Acceptable(vals, parent, s, sig[i]) = {} }
   IN IF missing # {}
      THEN /\ r.err /\ r.calls = 0
-          /\ r.errtype \in { sig[i] : i \in missing }        \* the error names an unresolvable type ...
-          /\ r.errtype = sig[CHOOSE i \in missing : \A j \in missing : i <= j]   \* ... the first one
+          /\ r.errtype \in { sig[i] : i \in missing }        \* the error names an unresolvable type (any of them: C04 does not say which)
      ELSE /\ ~r.err /\ r.calls = 1 /\ Len(r.args) = Len(sig)
           /\ \A i \in 1..Len(sig) : r.args[i] \in Acceptable(vals, parent, s, sig[i])
           /\ r.rets = r.bodyrets
-\* Apply: tagged settable fields in declaration order; stops at the first failure
+\* Apply: every tagged settable field receives an acceptable value; if one cannot be resolved the call reports an error
+\* naming such a type (what the struct holds after a FAILED Apply is not specified); untagged / unexported fields keep
+\* their values either way
 P_ApplyOK(vals, parent, s, fields, r) ==
   LET missing == { i \in 1..Len(fields) : Acceptable(vals, parent, s, fields[i]) = {} }
-      stop == IF missing = {} THEN Len(fields) + 1 ELSE CHOOSE i \in missing : \A j \in missing : i <= j
   IN /\ r.err = (missing # {})
-     /\ (missing # {} => r.errtype = fields[stop])
-     /\ \A i \in 1..(stop - 1) : r.got[i] \in Acceptable(vals, parent, s, fields[i])
-     /\ r.untouched                                         \* untagged / unexported fields keep their values
+     /\ (missing # {} => r.errtype \in { fields[i] : i \in missing })
+     /\ (missing = {} => \A i \in 1..Len(fields) : r.got[i] \in Acceptable(vals, parent, s, fields[i]))
+     /\ r.untouched
 ====
